@@ -1,39 +1,76 @@
 /-
-  Source tie, group RecvUnrel (PARTIAL): `renet/src/channel/unreliable.rs`
-  `ReceiveChannelUnreliable::{process_message, receive_message}` ↔ `RecvUnrel.processMessage` / `RecvUnrel.receive`.
-  The methods are translated over the struct VIEW `{channel_id, messages, max_memory_usage_bytes, memory_usage_bytes}`
-  (the translator rejects them if they touch the `BTreeMap` slice tables); `viewRU` projects a model state onto it.
-  NOT translated yet: `new`, `process_slice`, `discard_incomplete_old_slices` (need a `BTreeMap` model, aliases into map
-  entries and `Err` results that carry the mutated state).
+  Source tie, group RecvUnrel: `renet/src/channel/unreliable.rs`
+  `ReceiveChannelUnreliable::{new, process_message, process_slice, discard_incomplete_old_slices, receive_message}`
+  ↔ `RecvUnrel` of `Renet/Channels.lean` (`RecvUnrel.new/processMessage/processSlice/discardOld/receive`).
+
+  `reprRU` maps a model state to the generated struct.  The two `BTreeMap`s are association lists sorted by key on both
+  sides (`RustSem.Map` / `SMap`; `MSorted` = strictly ascending keys); a generated `SliceConstructor` stores its key as
+  `message_id`.  `process_slice` is a `&mut self` method returning `Result`: its `Err` carries the state it leaves
+  behind (memory already reserved, constructor inserted) exactly like the model's `.err (e, r)`.  `SameOutcome` /
+  `discardOut` compare `ok` / `err` values exactly and panics up to the text of the site.
 -/
 import RenetVerif.Lemmas.SrcEquiv.RecvUnrel
 namespace RenetVerif.SrcTie
 open RenetVerif RenetVerif.SrcEquiv RenetVerif.RustSem
 open Src.renet.channel.unreliable
 
-/-- `process_message`: the model's new state (unchanged on the memory-limited `log::warn!` + `return` path); the slice
-    tables are untouched on both sides -/
-theorem recv_unrel_process_message {ε : Type} (r : RecvUnrel) (m : Bytes) (h : r.mem + m.length < 2 ^ 64) :
-    (ReceiveChannelUnreliable.process_message (viewRU r) (toNats m) : Res ε _) = .ok (viewRU (r.processMessage m), ()) ∧
-      (r.processMessage m).slices = r.slices ∧ (r.processMessage m).lastReceived = r.lastReceived :=
-  ⟨process_message_eq r m h, processMessage_tables r m⟩
+theorem recv_unrel_new {ε : Type} (channelId maxMem : Nat) :
+    (ReceiveChannelUnreliable.new channelId maxMem : Res ε _) = .ok (reprRU (RecvUnrel.new channelId maxMem)) :=
+  ru_new_eq channelId maxMem
 
-/-- `receive_message`: pops the oldest message and releases its bytes; panics exactly when the model does (memory
-    counter below the message length — excluded by the channel invariant) -/
+/-- `process_message`: the model's new state (unchanged on the memory-limited `log::warn!` + `return` path) -/
+theorem recv_unrel_process_message {ε : Type} (r : RecvUnrel) (m : Bytes) (h : r.mem + m.length < 2 ^ 64) :
+    (ReceiveChannelUnreliable.process_message (reprRU r) (toNats m) : Res ε _) = .ok (reprRU (r.processMessage m), ()) :=
+  process_message_eq r m h
+
+/-- `receive_message`: pops the oldest message and releases its bytes; panics exactly when the model does -/
 theorem recv_unrel_receive_message {ε : Type} (r : RecvUnrel) :
-    (ReceiveChannelUnreliable.receive_message (viewRU r) : Res ε _) =
+    (ReceiveChannelUnreliable.receive_message (reprRU r) : Res ε _) =
       match r.receive with
-      | .ok (r', o) => .ok (viewRU r', o.map toNats)
+      | .ok (r', o) => .ok (reprRU r', o.map toNats)
       | .err e => nomatch e
       | .panic _ => .panic "renet/src/channel/unreliable.rs:ReceiveChannelUnreliable::receive_message: self.memory_usage_bytes -= message.len()" :=
   receive_message_eq r
 
-example : (ReceiveChannelUnreliable.process_message ⟨0, [[1]], 10, 1⟩ [2, 3] : Res Empty _) = .ok (⟨0, [[1], [2, 3]], 10, 3⟩, ()) := by
+/-- `process_slice` on a state with a sorted slice table, a memory counter that cannot overflow when the slice's
+    message is reserved, and (if the message is already being assembled) a constructor of sane size: same new state,
+    same `InvalidSliceMessage` error WITH the same state left behind, and a panic exactly when the model panics -/
+theorem recv_unrel_process_slice (r : RecvUnrel) (sl : Slice) (now : Nat) (hs : MSorted r.slices)
+    (hmem : r.mem + sl.numSlices * C.SLICE_SIZE < 2 ^ 64)
+    (hctor : ∀ c, SMap.find? r.slices sl.messageId = some c → CtorOk c) :
+    SameOutcome (ReceiveChannelUnreliable.process_slice (reprRU r) (reprSlice sl) now)
+      (mapRes (fun r' => (reprRU r', ())) (fun e => (reprCE e.1, reprRU e.2)) (r.processSlice sl now)) :=
+  process_slice_eq_ru r sl now hs hmem hctor
+
+/-- `discard_incomplete_old_slices` when the recorded receive times are not in the future and the table's constructors
+    have sizes that fit `usize`: the model's new state, or a panic exactly when the model panics -/
+theorem recv_unrel_discard_incomplete_old_slices {ε : Type} (r : RecvUnrel) (now : Nat)
+    (hpast : ∀ p ∈ r.lastReceived, p.2 ≤ now) (hsz : SizesOk r) :
+    discardOut (r.discardOld now) (ReceiveChannelUnreliable.discard_incomplete_old_slices (reprRU r) now : Res ε _) :=
+  discard_eq r now hpast hsz
+
+example : (ReceiveChannelUnreliable.process_message ⟨0, [[1]], [], [], 10, 1⟩ [2, 3] : Res Empty _) =
+    .ok (⟨0, [[1], [2, 3]], [], [], 10, 3⟩, ()) := by decide +kernel
+example : (ReceiveChannelUnreliable.receive_message ⟨0, [[1], [2, 3]], [], [], 10, 3⟩ : Res Empty _) =
+    .ok (⟨0, [[2, 3]], [], [], 10, 2⟩, some [1]) := by decide +kernel
+/-- a one-slice message completes at once: memory reserved, released, the 3 payload bytes accounted -/
+example : ReceiveChannelUnreliable.process_slice ⟨0, [], [], [], 5000, 0⟩ ⟨7, 0, 1, [1, 2, 3]⟩ 100 =
+    .ok (⟨0, [[1, 2, 3]], [], [], 5000, 3⟩, ()) := by decide +kernel
+/-- the first of two slices: constructor and receive time are recorded, 2400 bytes reserved -/
+example : ReceiveChannelUnreliable.process_slice ⟨0, [], [], [], 5000, 0⟩ ⟨7, 0, 2, List.replicate 1200 9⟩ 100 =
+    .ok (⟨0, [], [(7, ⟨7, 2, 1, [true, false], List.replicate 1200 9 ++ List.replicate 1200 0⟩)], [(7, 100)], 5000, 2400⟩, ()) := by
   decide +kernel
-example : (ReceiveChannelUnreliable.process_message ⟨0, [[1]], 2, 1⟩ [2, 3] : Res Empty _) = .ok (⟨0, [[1]], 2, 1⟩, ()) := by
+/-- memory limited: the slice is dropped and the state unchanged -/
+example : ReceiveChannelUnreliable.process_slice ⟨0, [], [], [], 1000, 0⟩ ⟨7, 0, 1, [1, 2, 3]⟩ 100 =
+    .ok (⟨0, [], [], [], 1000, 0⟩, ()) := by decide +kernel
+/-- a slice whose `num_slices` disagrees with the constructor: `Err` carrying the unchanged state -/
+example : ReceiveChannelUnreliable.process_slice
+      ⟨0, [], [(7, ⟨7, 2, 0, [false, false], List.replicate 2400 0⟩)], [], 5000, 2400⟩ ⟨7, 0, 3, [1]⟩ 100 =
+    .err (.InvalidSliceMessage, ⟨0, [], [(7, ⟨7, 2, 0, [false, false], List.replicate 2400 0⟩)], [], 5000, 2400⟩) := by
   decide +kernel
-example : (ReceiveChannelUnreliable.receive_message ⟨0, [[1], [2, 3]], 10, 3⟩ : Res Empty _) = .ok (⟨0, [[2, 3]], 10, 2⟩, some [1]) := by
-  decide +kernel
-example : (ReceiveChannelUnreliable.receive_message ⟨0, [], 10, 0⟩ : Res Empty _) = .ok (⟨0, [], 10, 0⟩, none) := by decide +kernel
+/-- an incomplete message older than 3 s is discarded and its memory released -/
+example : (ReceiveChannelUnreliable.discard_incomplete_old_slices
+      ⟨0, [], [(7, ⟨7, 2, 1, [true, false], List.replicate 2400 0⟩)], [(7, 1000)], 5000, 2400⟩ 3000001000 : Res Empty _) =
+    .ok (⟨0, [], [], [], 5000, 0⟩, ()) := by decide +kernel
 
 end RenetVerif.SrcTie
